@@ -21,6 +21,9 @@ def provenance(e, fn, operand):
         if d2 and d2[2]['op'] == 'FieldAddr':
             fa = d2[2]
             return e.shortfn(fa['struct']) + '.' + fa['field'], fa['x']
+    if ins['op'] == 'Call' and ins.get('invoke') and ins.get('iface'):
+        # a channel obtained from an interface method (ctx.Done()): events 'before recv Done#k'
+        return e.shortfn(ins['iface']) + '.' + ins['invoke'], ins.get('recv')
     if ins['op'] in ('ChangeType', 'Phi'):
         return None, None
     return None, None
